@@ -420,7 +420,7 @@ def check_bw_brute_force(rep, dbg):
         rep.bad('BW-SIB', 'BW-SIB:range', where, 'the brute-force enumeration is not bounded by the max-offset search', '0..=max_offset', fn=path,
                 direction='a debug build does not terminate when nothing ever matches; a release build returns')
         return
-    want = ('map', ('filter', ('range', T.const(0), T.add(T.root(('try', mo[0])), T.const(1))), ('lam', 0, want_pred)), ('lam', 0, T.as_lin(t_)))
+    want = ('filter', ('range', T.const(0), T.add(T.root(('try', mo[0])), T.const(1))), ('lam', 0, want_pred))
     if T.same(brute, want):
         rep.ok('BW-SIB', 'BW-SIB:lemma19', where, 'brute force enumerates t in 0..=max_offset with eta_eoc(t) != eta_eoc(t+1) or (polled, t>0, eta_cb(t-1) != eta_cb(t)): '
                'the same shifts as the production search space (eoc steps - 1, polled steps + 0)', fn=path)
